@@ -257,6 +257,13 @@ def position_mapping(ctx, rule):
         if cb is not None:
             e = ctx.sym(cb).local(0)
             idx = [x for x in S.walk(e) if isinstance(x, tuple) and x and x[0] == "call" and x[1].endswith("Index::index")]
+            if not idx:
+                # `records.get(ix).unwrap()` / `.expect(..)`: the same element (and the same panic) as `records[ix]`
+                idx = [x for x in S.walk(e) if isinstance(x, tuple) and x and x[0] == "call" and
+                       x[1].endswith(("<impl [T]>::get", "Vec::get")) and len(x[2]) == 2]
+                if not any(isinstance(x, tuple) and x and x[0] == "call" and x[1].endswith(("Option::unwrap", "Option::expect"))
+                           for x in S.walk(e)):
+                    idx = []
             if e[0] == "call" and e[1].endswith("Hit::from_record") and idx:
                 base = field_chain(idx[0][2][0])[0]
                 ix = S.strip_refs(idx[0][2][1])
@@ -1363,3 +1370,38 @@ def trans_gap_penalty(ctx, rule):
     else:
         ctx.fail(rule, key, body.where(), "score_trans_down: %s" % "; ".join(sorted(set(problems))[:2] or ["no path evaluated"]),
                  {"witness": "'u v x' no longer outranks 'u x v' for the query 'u v'"})
+
+
+
+def filter_passes(ctx, rule, key, n_r, n_q, n_words, descr, witness):
+    """abstract run (A13) of hit_matches for a non-empty query of n_words words with n_r matched record words and n_q matched
+    query words: the filter must answer `true` whatever the matches look like (their fields are unknown to the run)"""
+    from .. import absint as AI
+    fb = ctx.facts.one("search::filter::hit_matches")
+    if not ctx.require(rule, "hit_matches", fb):
+        return
+    counts = {"rmatches": n_r, "qmatches": n_q, "words": n_words}
+
+    def oracle(t, args, body):
+        cn = t.get("cn") or ""
+        sy = ctx.sym(body)
+        if cn.endswith("Text::is_empty"):
+            return [AI.const(False)]
+        if cn.endswith(("Vec::as_slice", "Deref::deref")) and t["args"]:
+            p = U.field_path(sy.operand(t["args"][0]))
+            if p and p[2] and p[2][-1] in counts:
+                return [("slice", counts[p[2][-1]])]
+        if cn.endswith(("::len", "::is_empty")) and t["args"]:
+            p = U.field_path(sy.operand(t["args"][0]))
+            if p and p[2] and p[2][-1] in counts:
+                n = counts[p[2][-1]]
+                return [AI.const(n) if cn.endswith("len") else AI.const(n == 0)]
+        return None
+    try:
+        res = AI.AbsInt(ctx, oracle).run_body(fb, [("sym", "query"), ("sym", "hit")])
+    except AI.Limit:
+        res = {AI.UNKNOWN}
+    if res == {AI.const(True)}:
+        ctx.ok(rule, key, fb.where(), "%s passes the filter (abstract run of hit_matches)" % descr, nontrivial=True)
+    else:
+        ctx.fail(rule, key, fb.where(), "hit_matches can reject %s: %s" % (descr, sorted(AI.show(x) for x in res)), {"witness": witness})
